@@ -171,6 +171,9 @@ type streamCase struct {
 	RF      bool   `json:"reader_from"`
 	Fault   string `json:"fault"` // none | fail | unexpected-eof | cancel | precancelled | deadline
 	At      int    `json:"at"`
+	// Wrapped: the source and the destination handed to the helper are themselves context-aware streams of the library,
+	// bound to somebody else's context which stays alive (a long-lived logger or connection used under a per-request context)
+	Wrapped bool `json:"streams_already_bound_to_a_live_context,omitempty"`
 }
 
 func runStream(r *vrun.Run, c streamCase) {
@@ -204,6 +207,13 @@ func runStream(r *vrun.Run, c streamCase) {
 	var writer io.Writer = sw
 	if c.RF {
 		writer = sWriterRF{sw}
+	}
+	if c.Wrapped {
+		live, stop := context.WithCancel(context.Background())
+		defer stop()
+		reader = safeio.NewContextualReader(live, reader)
+		writer = safeio.ContextualWriter(live, writer)
+		r.Obs("stream_cases_on_streams_already_bound_to_a_live_context", 1)
 	}
 	var got []byte
 	var err error
@@ -383,6 +393,13 @@ func partA(r *vrun.Run) {
 					cases = append(cases, variants...)
 				}
 			}
+		}
+	}
+	for i, n := 0, len(cases); i < n; i++ {
+		if i%3 == 1 {
+			c := cases[i]
+			c.Wrapped = true
+			cases = append(cases, c)
 		}
 	}
 	vrun.Parallel(len(cases), 0, func(i int) { runStream(r, cases[i]) })
